@@ -405,6 +405,14 @@ Section Final.
             (xinit nslots seeds nstripes len0 todo) sched)).
   Notation tab_at := (@tab_at K V nslots nstripes).
 
+  Lemma protocol_proof :
+    xhyps idx nstripes minlen -> forall len0 todo sched, 0 < len0 ->
+    X_inv.XInv hash idx nslots nstripes (run len0 todo sched).
+  Proof.
+    intros [H1 [H2 H3]] len0 todo sched Hl.
+    apply (reachable_inv2 eqd hash idx tag nslots seeds grow_needed shrink_policy probe nstripes minlen grow_only H1 H2 H3 len0 todo sched Hl).
+  Qed.
+
   Lemma locks_released_proof :
     xhyps idx nstripes minlen -> forall len0 todo sched t, 0 < len0 ->
     let s := run len0 todo sched in
